@@ -48,7 +48,19 @@ func fileSets() map[string][]fileSpec {
 	apacheHdr := read("Header/Apache-2.0/header.txt")
 	bsd := read("License/BSD-3-Clause/pristine.txt")
 	long := strings.Repeat("x", 70000)
+	// more files than the default number of tasks (1000): tokens and result slots are reused
+	var crowd []fileSpec
+	for i := 0; i < 1100; i++ {
+		body := "plain text number " + fmt.Sprint(i) + "\n"
+		if i%40 == 0 {
+			body = mit
+		} else if i%97 == 0 {
+			body = ""
+		}
+		crowd = append(crowd, fileSpec{fmt.Sprintf("d%02d/f%04d.txt", i%23, i), body})
+	}
 	return map[string][]fileSpec{
+		"crowd":           crowd,
 		"licensed":        {{"LICENSE", "Some project\n\n" + mit}},
 		"unlicensed":      {{"README", "just words, nothing else\nsecond line\n"}},
 		"nested":          {{"a/b/LICENSE", mit}, {"a/c/NOTES", "plain text\n"}, {"a/b/d/COPYING", bsd}},
@@ -122,10 +134,10 @@ func c19CLI(c *vrep.Ctx) {
 	}
 	sort.Strings(names)
 	if !c.Thorough() {
-		names = []string{"licensed", "unlicensed", "nested", "crlf", "long-line-first", "header-only", "copyright-only", "no-trailing-nl", "identical-twins"}
+		names = []string{"licensed", "unlicensed", "nested", "crlf", "long-line-first", "header-only", "copyright-only", "no-trailing-nl", "identical-twins", "crowd"}
 	}
-	taskMenu := []string{"1", "2", "16"}
-	c.R.Rule = fmt.Sprintf("the real identify_license binary built from the current tree, over %d file sets (licensed, unlicensed, nested directories, no trailing newline, CRLF, a 70 000-character line, empty file, header-only, copyright-only, two licenses in one file, many files) x {-headers} x {plain, -json -include_text} x -tasks %v: stdout lines (as a multiset), JSON Text (= lines StartLine..EndLine of the file) and exit status compared with in-process DefaultClassifier().Match on the file bytes; quick tier samples the flag combinations round-robin, thorough runs all; non-trivial = runs that reported at least one line", len(names), taskMenu)
+	taskMenu := []string{"1", "2", "16", "default"}
+	c.R.Rule = fmt.Sprintf("the real identify_license binary built from the current tree, over %d file sets (licensed, unlicensed, nested directories, no trailing newline, CRLF, a 70 000-character line, empty file, header-only, copyright-only, two licenses in one file, many files, 1100 files) x {-headers} x {plain, -json -include_text} x -tasks %v: stdout lines (as a multiset), JSON Text (= lines StartLine..EndLine of the file) and exit status compared with in-process DefaultClassifier().Match on the file bytes; quick tier samples the flag combinations round-robin, thorough runs all; non-trivial = runs that reported at least one line", len(names), taskMenu)
 	type combo struct {
 		headers, json bool
 		tasks         string
@@ -168,6 +180,9 @@ func c19CLI(c *vrep.Ctx) {
 		}
 		sort.Strings(want)
 		args := []string{"-tasks", cb.tasks}
+		if cb.tasks == "default" {
+			args = nil // the tool's own default (1000)
+		}
 		if cb.headers {
 			args = append(args, "-headers")
 		}
